@@ -985,7 +985,7 @@ class K:
 
 SCENARIO_KINDS = ['shadow', 'shadow', 'shadow', 'unwind', 'unwind', 'nested_def', 'nested_def', 'loop_in_loop',
                        'arg_alias', 'arg_alias', 'paramless_local', 'paramless_local', 'computed_sources', 'late_macro', 'self_bound',
-                       'single_item_range', 'none_param', 'later_param_shadows', 'raw_cycle']
+                       'single_item_range', 'none_param', 'later_param_shadows', 'raw_cycle', 'blockless_routine']
 
 
 def scenario(rng, world, kind=None):
@@ -1088,6 +1088,27 @@ def scenario(rng, world, kind=None):
         items.append(K.pr(K.r_call('third', [K.lit(1), K.lit(2), K.lit(3)])))
         items.append(K.pr(K.var(g)))
         items.append(K.pr(K.var(g2)))
+    elif kind == 'blockless_routine':
+        # a routine without parameters whose body is one statement without begin / end: every kind of statement may start it
+        def bare(f, body):
+            return ('define %s %s' % (f, body[0]), '(SDefineRoutine %s [] %s)' % (coq_str(f), body[1]))
+        n = rng.randint(2, 3)
+        bodies = [K.rep_count(K.lit(n), [K.pr(K.lit(1))]),
+                  ('repeat %d print 2' % n, '(SRepeat (LCount (RLit (LInt %d))) (SPrint (Some (RLit (LInt 2)))))' % n),
+                  K.if_(K.expr(*K.e_bin('<', K.e_lit(1), K.e_lit(2))), [K.pr(K.lit(3))]),
+                  K.pr(K.lit(4)), ('on all', '(SOn OpAll)'), K.reg('hue', K.lit(5)), K.assign('zz', K.lit(6)), ('set all', '(SSet OpAll)'),
+                  ('units raw', '(SUnits UM_RAW)'), ('println 8', '(SPrintln (Some (RLit (LInt 8))))'),
+                  K.rep_range('ix', K.lit(1), K.lit(n), [K.pr(K.var('ix'))]),
+                  ('repeat all as lx print lx', '(SRepeat (LAll "lx" None) (SPrint (Some (RVar "lx"))))')]
+        rng.shuffle(bodies)
+        names = []
+        for i, b in enumerate(bodies[:rng.randint(4, 8)]):
+            names.append('rb%d' % i)
+            items.append(bare(names[-1], b))
+        for nm in names:
+            items.append(K.call(nm, []))
+        items.append(('units logical', '(SUnits UM_LOGICAL)'))
+        items.append(K.pr(K.lit(999)))
     elif kind == 'raw_cycle':
         # `with v cycle` divides a full turn by the count: 65536 in raw units, 360 otherwise -- in plain code, with a start
         # value, over lights, and in a routine that runs under the units of its caller
